@@ -10,6 +10,12 @@ import (
 // throughCallers is set — a parameter of the starting function by the
 // arguments at its module call sites. Depth-bounded; recursion is cut.
 func (p *Prog) DeepSources(v ssa.Value, depth int, throughCallers bool) []ssa.Value {
+	return p.DeepSourcesStop(v, depth, throughCallers, nil)
+}
+
+// DeepSourcesStop is DeepSources that does not expand values for which stop
+// returns true (they are reported as sources themselves).
+func (p *Prog) DeepSourcesStop(v ssa.Value, depth int, throughCallers bool, stop func(ssa.Value) bool) []ssa.Value {
 	type frame struct {
 		site   ssa.CallInstruction
 		callee *ssa.Function
@@ -30,6 +36,13 @@ func (p *Prog) DeepSources(v ssa.Value, depth int, throughCallers bool) []ssa.Va
 		for _, src := range Sources(v) {
 			key := src
 			if seen[key] && fr == nil {
+				continue
+			}
+			if stop != nil && stop(src) {
+				if !seen[key] {
+					seen[key] = true
+					out = append(out, src)
+				}
 				continue
 			}
 			switch x := src.(type) {
